@@ -26,6 +26,12 @@ def run_lp(case):
     Af = [[float(v) for v in row] for row in A] if fl else [list(row) for row in A]
     bf = [float(v) for v in b] if fl else list(b)
     cf = [float(v) for v in c] if fl else list(c)
+    rowden, cden = case.get("rowden"), case.get("cden", 1)
+    if rowden or cden != 1:       # small rational data: dyadic, hence exact as floats; same feasible set, objective divided by cden
+        rowden = rowden or [1] * m
+        Af = [[v / d for v in row] for row, d in zip(A, rowden)]
+        bf = [v / d for v, d in zip(b, rowden)]
+        cf = [v / cden for v in c]
     events = []
     for solver, fn in (("simplex", solve_lp), ("interior", solve_lp_interior)):
         for minimize in (True, False):
@@ -40,7 +46,7 @@ def run_lp(case):
                 events.append(_ev("simplex", solve_lp(cf, Af, bf, minimize=minimize, max_iter=mi), minimize, n))
             except Exception as ex:  # noqa: BLE001
                 events.append({"e": "raise", "solver": "simplex", "what": type(ex).__name__})
-    return {"A": A, "b": b, "c": c, "m": m, "n": n, "events": events, "input": case}
+    return {"A": A, "b": b, "c": c, "m": m, "n": n, "cden": cden, "events": events, "input": case}
 
 
 def gen_equalities(rng):
@@ -94,4 +100,8 @@ def gen(rng, big=False):
     elif style < 0.85:
         A = [[abs(v) for v in row] for row in A]      # bounded-looking
         b = [abs(v) + 1 for v in b]
-    return {"A": A, "b": b, "c": c, "floats": rng.random() < 0.5}
+    case = {"A": A, "b": b, "c": c, "floats": rng.random() < 0.5}
+    if rng.random() < 0.3:          # small rational data: rows and objective divided by powers of two
+        case["rowden"] = [rng.choice([1, 2, 4]) for _ in range(m)]
+        case["cden"] = rng.choice([1, 2, 4])
+    return case
